@@ -17,7 +17,7 @@ CFG = {
     "timeout": {"quick": 600, "thorough": 7200},
     "trusted_base": COMMON_TRUST + [
         "modelled, not verified: quick-xml 0.37 serializer/deserializer (field -> attribute/element mapping, text trimming, xs:list splitting, escaping), serde derive, plist::Dictionary (IndexMap insert semantics)",
-        "codec parameter (hypothesis CodecLaws of the theorems; satisfiable: codec_laws_satisfiable; the integer and base64 parts are proved for the Lean implementations the driver runs; the date part is a real RFC 3339 implementation in Lean, proved a round trip under the single named hypothesis CalendarInverse (days_from_civil . civil_from_days = id on years 0000-9999) and compared with plist::Date::to_xml_format/from_xml_format on every date of every run (tag date-impl-differs); the float Display part remains a hypothesis): f32/f64/i64/u64 Display and FromStr round trip for non-NaN values, base64 STANDARD, plist::Date RFC 3339 formatting; the driver instantiates it per line from Rust's own to_string/to_xml_format output printed by the harness and checks the assumed laws on every such string (tag codec-law-broken)",
+        "codec parameter (hypothesis CodecLaws of the theorems; satisfiable with NO hypothesis left for real decimal integers, real base64, the real RFC 3339 date codec (calendar_inverse: days_from_civil . civil_from_days = id proved via one complete-era table by decide +kernel + structural lift) and floats that are exact on the simple fragment (+-N/2^j: integers below 2^24/2^53 and few-bit dyadics, codec_laws_simple_floats); what REMAINS a hypothesis is the shortest-round-trip Display/FromStr law of f32/f64 outside that fragment; the driver instantiates the codec per line from Rust's own strings, checks the laws on every string (codec-law-broken) and compares the Lean date and simple-float implementations with plist::Date / Rust Display+FromStr on every value of every run (date-impl-differs, float-impl-differs)): f32/f64/i64/u64 Display and FromStr, base64 STANDARD, plist::Date RFC 3339 formatting",
         "tools/extract_ds_consts.py (regex translator of designspace.rs, serde_xml_plist.rs and the vendored quick-xml 0.37 / plist 1.x / time 0.3 sources into lean/Norad/Generated/DsConsts.lean; trusted in one direction only: a wrong extraction can make a source_* theorem fail or fall back to tools/pinned/DsConsts.lean, it cannot make a false theorem check)",
         "python3 xml.etree (expat) as the independent XML reader; harness/src/c18_xmltree.py turns its tree into protocol tokens",
         "Spec.conformView (attribute-value and line-end normalisation of a conforming XML processor) predicts what xml.etree sees; ds_spec_reader_finds_values is stated over it",
@@ -39,7 +39,9 @@ MANIFEST = {
              "tree and the loaded document must equal the model's, and the specification reader is run on the file's tree. Source-level tie: "
              "twelve source_* theorems state that the escape/unescape tables, serializer defaults, norad's writer settings, the serde field "
              "table (names, skip rules, defaults, list wrappers), the glue keywords and the date format/range regenerated from the Rust "
-             "sources of the run are the model's; escape_unescape_text/attr prove unescape . escape = id for every string."),
+             "sources of the run are the model's; escape_unescape_text/attr prove unescape . escape = id for every string. The codec hypothesis is "
+             "discharged for integers, base64, dates (calendar_inverse, date_codec_roundtrip, unconditional) and for floats on the simple "
+             "fragment (codec_laws_simple_floats); only the general float shortest-round-trip law stays assumed."),
     "design_ref": "5 / C18",
     "note": "trusted: Lean kernel, quick-xml/serde/plist behaviour as modelled, number/base64/date formatting as a codec parameter with checked laws, xml.etree as independent reader",
     "technique": "Lean 4 theorems (structural + mutual induction over plist values) + save/load/independent-reader correspondence",
